@@ -70,6 +70,25 @@ def semantic(params, ret, args, nothing, empty_nodes):
     return empty_nodes()
 
 
+def semantic_alt(params, ret, args, nothing, empty_nodes):
+    """A second behaviour for every probe signature (a function registered again under the same name and declared
+    types, doing something else): the answer of `semantic` turned round where that is possible."""
+    v = semantic(params, ret, args, nothing, empty_nodes)
+    if ret == VALUE:
+        return [v] if v is not nothing else "was-nothing"
+    if ret == LOGICAL:
+        return not v
+    return v
+
+
+def ref_registry_alt():
+    reg = {}
+    for name, (params, ret) in SIGS.items():
+        reg[name] = {"params": params, "ret": ret,
+                     "impl": (lambda *a, _p=params, _r=ret: semantic_alt(_p, _r, a, NOTHING, list))}
+    return reg
+
+
 def ref_registry():
     reg = {k: v for k, v in BUILTINS.items()}
     for name, (params, ret) in SIGS.items():
@@ -79,6 +98,28 @@ def ref_registry():
 
 
 REG = ref_registry()
+REG_ALT = ref_registry_alt()
+_FNS_ALT = None
+
+
+def probe_functions_alt():
+    global _FNS_ALT
+    if _FNS_ALT is None:
+        import jsonpath_rfc9535 as jp
+        from jsonpath_rfc9535.function_extensions import ExpressionType, FilterFunction
+        tmap = {VALUE: ExpressionType.VALUE, LOGICAL: ExpressionType.LOGICAL, NODES: ExpressionType.NODES}
+        out = {}
+        for name, (params, ret) in SIGS.items():
+            class F(FilterFunction):
+                arg_types = [tmap[p] for p in params]
+                return_type = tmap[ret]
+
+                def __call__(self, *a, _n=name, _p=params, _r=ret):
+                    _LOG.append((_n, a))
+                    return semantic_alt(_p, _r, a, jp.NOTHING, jp.JSONPathNodeList)
+            out[name] = F()
+        _FNS_ALT = out
+    return _FNS_ALT
 _ENV = None
 _LOG = []
 
@@ -345,7 +386,7 @@ def run_shard(spec, shard):
         if seg is None:
             return
         ast = ["q", "$", base[2] + [seg]]
-        if diff.arg_starts_with_not_or_paren(ast) or not any(x and x[0] == "call" and x[1] == "fx" for x in Q.walk(ast)):
+        if (diff.EXCLUDE_R and diff.arg_starts_with_not_or_paren(ast)) or not any(x and x[0] == "call" and x[1] == "fx" for x in Q.walk(ast)):
             return
         text = Q.Renderer(r, 0.1).query(ast)
         ast = Q.strip_hints(ast)
@@ -460,7 +501,7 @@ def run_shard(spec, shard):
         if seg is None:
             return
         ast = ["q", "$", base[2] + [seg]]
-        if diff.arg_starts_with_not_or_paren(ast):
+        if diff.EXCLUDE_R and diff.arg_starts_with_not_or_paren(ast):
             shard.excluded["R:function-argument-starting-with-!-or-("] += 1
             return
         text = Q.Renderer(r, 0.1).query(ast)
